@@ -644,6 +644,9 @@ async fn hs3(ctx: Rc<Ctx>, h: v3::Handshake) -> Result<v3::HandshakeAck<()>, Tes
             if ka >= 0 {
                 ack = ack.idle_timeout(Seconds(ka as u16));
             }
+            if let Some(v) = std::num::NonZeroU32::new(ctx.cfg_i("ack_max_packet_size", 0).max(0) as u32) {
+                ack = ack.max_packet_size(v);
+            }
             Ok(ack)
         }
     }
